@@ -657,6 +657,32 @@ func main() {
 			run.Sample(map[string]any{"scenario": o.Scenario, "bound": o.Bound, "history": o.Sample})
 		}
 	}
+	// auxiliary: the same kinds of drivers free-running under the race detector (thorough tier)
+	if bin := os.Getenv("VERIF_RACE"); bin != "" {
+		cmd := exec.Command(bin, "--iters", "300")
+		cmd.Env = append(os.Environ(), "GORACE=halt_on_error=1 exitcode=66")
+		outb, err := cmd.CombinedOutput()
+		var ro struct {
+			Runs int `json:"runs"`
+		}
+		if err != nil {
+			if strings.Contains(string(outb), "DATA RACE") {
+				tail := string(outb)
+				if len(tail) > 6000 {
+					tail = tail[:6000]
+				}
+				run.Violation("race-detector/data-race", map[string]any{"report": tail})
+			} else {
+				run.Set("race_pass_error", fmt.Sprint(err, " ", string(outb[:min(len(outb), 500)])))
+			}
+		} else {
+			for _, line := range strings.Split(string(outb), "\n") {
+				json.Unmarshal([]byte(line), &ro) //nolint:errcheck
+			}
+			run.Set("race_pass_runs", ro.Runs)
+			run.Set("race_reports", 0)
+		}
+	}
 	run.Set("per_scenario", perScenario)
 	run.Set("bound_completed", completed)
 	run.Finish()
